@@ -1,7 +1,7 @@
 HARNESSES = {
     'RegisterStep': dict(split={'call': 5}),
     'StartPathGradient': dict(quick=dict(params={'stops': 2}), thorough=dict(params={'stops': 4})),
-    'Repaint': dict(split={'write': 2}, job_timeout_s=300, quick=dict(params={'stops': 2}), thorough=dict(params={'stops': 3})),
+    'Repaint': dict(split={'write': 2}, job_timeout_s=700, quick=dict(params={'stops': 2}), thorough=dict(params={'stops': 3})),
     'DisabledPath': dict(split={'call': 19}),
 }
 MERGE = ['vph/ref.premul']
